@@ -61,9 +61,9 @@ def render (name : String → String) : OptSet → Option (List (String × Int))
 def defines (name : String → String) (o : OptSet) : Option (List (String × Int)) := render name o
 
 /-- The option `static_assert`s of a type header generated with option set `o`
-(`omit` = `--omit-serialization-support`: C still emits them, C++ does not). -/
-def asserts (lang : Lang) (omit : Bool) (name : String → String) (o : OptSet) : Option (List (String × Int)) :=
-  match lang, omit with
+(`pod` = `--omit-serialization-support`: C still emits them, C++ does not). -/
+def asserts (lang : Lang) (pod : Bool) (name : String → String) (o : OptSet) : Option (List (String × Int)) :=
+  match lang, pod with
   | .cpp, true => some []
   | _, _ => render name o
 
@@ -104,8 +104,8 @@ def accepted (lang : Lang) (defs asrt : List (String × Int)) : Bool :=
 
 /-- Support header generated with `o₁`, type header with `o₂`, compiled together.
 `none`: one of the two generations raised. -/
-def together (lang : Lang) (omit : Bool) (name : String → String) (o₁ o₂ : OptSet) : Option (List Diag) :=
-  match defines name o₁, asserts lang omit name o₂ with
+def together (lang : Lang) (pod : Bool) (name : String → String) (o₁ o₂ : OptSet) : Option (List Diag) :=
+  match defines name o₁, asserts lang pod name o₂ with
   | some d, some a => some (diagnostics lang d a)
   | _, _ => none
 
@@ -138,10 +138,31 @@ def Documented : List DocOpt → OptSet → Prop
   | e :: dom, (k, v) :: o =>
     (k = e.key ∧ v ∈ e.values ∧ Documented dom o) ∨ (e.always = false ∧ Documented dom ((k, v) :: o))
 
-/-- The keys on which two option sets with the same key list differ, as the diagnostics name them. -/
-def differing (name : String → String) : OptSet → OptSet → List Diag
-  | (_, v₁) :: o₁, (k₂, v₂) :: o₂ =>
-    if v₁ = v₂ then differing name o₁ o₂ else .mismatch (name k₂) :: differing name o₁ o₂
-  | _, _ => []
+instance decDocumented : (dom : List DocOpt) → (o : OptSet) → Decidable (Documented dom o)
+  | [], [] => isTrue trivial
+  | [], _ :: _ => isFalse (by simp [Documented])
+  | e :: dom, [] =>
+    have := decDocumented dom []
+    (inferInstance : Decidable (e.always = false ∧ Documented dom []))
+  | e :: dom, (k, v) :: o =>
+    have := decDocumented dom o
+    have := decDocumented dom ((k, v) :: o)
+    (inferInstance : Decidable ((k = e.key ∧ v ∈ e.values ∧ Documented dom o) ∨
+      (e.always = false ∧ Documented dom ((k, v) :: o))))
+
+/-- Key-level statement of what the guard reports (the specification side of the guard theorems): for every
+option of the type header's set `o₂`, in order: nothing when the support header's set `o₁` has the same value,
+a mismatch when it has a different one, an undefined name when it lacks the key. -/
+def expected (name : String → String) (o₁ o₂ : OptSet) : List Diag :=
+  o₂.filterMap fun kv =>
+    match o₁.lookup kv.1 with
+    | some v₁ => if v₁ = kv.2 then none else some (.mismatch (name kv.1))
+    | none => some (.undefined (name kv.1))
+
+/-- A value the guard compares faithfully in both languages: it encodes, and to a number a `std::uint32_t` holds. -/
+def encFits (v : OptVal) : Bool :=
+  match enc v with
+  | some n => decide (0 ≤ n) && decide (n < 4294967296)
+  | none => false
 
 end NunavutVerif.Options
